@@ -42,6 +42,9 @@ def step (st : St) (line : String) : St × List String :=
   | ["mon-hash", hex, ps, r] => match parseHex hex, parseInts ps, r.toInt? with
     | some bs, some ps, some r => (st, [if hashOk bs ps r then "ok" else "fail"])
     | _, _, _ => (st, ["bad-op"])
+  | ["mon-member", ps, x] => match parseInts ps, x.toInt? with
+    | some ps, some x => (st, [if member ps x then "ok" else "fail"])
+    | _, _ => (st, ["bad-op"])
   | ["mon-rr", ps, picks] => match parseInts ps, parseInts picks with
     | some ps, some picks => (st, [if !ascending ps || windowFair ps picks then "ok" else "fail"])
     | _, _ => (st, ["bad-op"])
